@@ -244,12 +244,9 @@ NON_GATE = {"qalloc", "qfree", "init", "meas", "meas_basis", "store", "load", "a
 
 
 def regs_of(ex) -> Dict[str, int]:
-    out = {}
-    for bank, grp in ex._registers[0].items():
-        for idx, v in grp._register.items():
-            if v is not None:
-                out[f"{bank.name}{idx}"] = v
-    return out
+    from vlib import sim
+
+    return sim.read_registers(ex, 0)
 
 
 def compare(case, subs_vanilla, debug: bool) -> Dict[str, Any]:
